@@ -40,6 +40,21 @@ func asMat(v w.Val) spatial.Matrix3 {
 	return m
 }
 func quatVal(q spatial.Quat) w.Val { return w.L(w.F(q.W), w.F(q.X), w.F(q.Y), w.F(q.Z)) }
+func asFlts(v w.Val) []float64 {
+	l := w.AsList(v)
+	r := make([]float64, len(l))
+	for i, x := range l {
+		r[i] = w.AsFlt(x)
+	}
+	return r
+}
+func fltsVal(l []float64) w.Val {
+	r := make(w.List, len(l))
+	for i, x := range l {
+		r[i] = w.F(x)
+	}
+	return r
+}
 func intsVal(l []int64) w.Val {
 	r := make(w.List, len(l))
 	for i, s := range l {
@@ -75,6 +90,22 @@ func fns() []*run.Fn {
 		{Name: "Min/int64", Invoke: func(a []w.Val) w.Val {
 			v, err := common.Min(w.AsInts(a[0]))
 			return w.WithErr(w.I(v), err)
+		}},
+		{Name: "Max/float64", Invoke: func(a []w.Val) w.Val {
+			v, err := common.Max(asFlts(a[0]))
+			return w.WithErr(w.F(v), err)
+		}},
+		{Name: "Min/float64", Invoke: func(a []w.Val) w.Val {
+			v, err := common.Min(asFlts(a[0]))
+			return w.WithErr(w.F(v), err)
+		}},
+		{Name: "NewMatrix3", Invoke: func(a []w.Val) w.Val {
+			f := make([]float64, 9)
+			for i := range f {
+				f[i] = w.AsFlt(a[i])
+			}
+			m := spatial.NewMatrix3(f[0], f[1], f[2], f[3], f[4], f[5], f[6], f[7], f[8])
+			return w.L(matVal(m), vecVal(m.MulVec(spatial.Vector3{X: 1})), vecVal(m.MulVec(spatial.Vector3{Y: 1})), vecVal(m.MulVec(spatial.Vector3{Z: 1})))
 		}},
 		{Name: "CalculateArithmeticShift", Invoke: func(a []w.Val) w.Val {
 			return w.I(common.CalculateArithmeticShift(w.AsInt(a[0]), w.AsInt(a[1])))
@@ -281,7 +312,17 @@ func shiftPair(g *Gen) (int64, int64, []string) {
 			}
 		}
 	} else {
-		switch g.Intn(8) {
+		switch g.Intn(12) {
+		case 8, 9, 10, 11: // magnitude 2^53 .. 2^63-1, either sign, non-zero low bits: not representable in float64
+			e := uint(53 + g.Intn(10))
+			i = int64(1)<<e + g.Int63n(int64(1)<<e)
+			if e == 62 && g.Intn(4) == 0 {
+				i = math.MaxInt64 - g.Int63n(1024)
+			}
+			i |= 1 + g.Int63n(255) // low bits set
+			if g.Chance(0.5) {
+				i = -i
+			}
 		case 0:
 			i = g.Pick(-1, 0, 1, -2, -3, 3, math.MinInt64, math.MaxInt64, math.MinInt64+1)
 		case 1: // exact multiple of 2^-s, and its neighbours (floor vs truncation differ on the negative side)
@@ -313,6 +354,9 @@ func shiftPair(g *Gen) (int64, int64, []string) {
 	}
 	if i < 0 {
 		tags = append(tags, "index<0")
+	}
+	if (i >= 1<<53 || i <= -(1<<53)) && s < 0 {
+		tags = append(tags, "|index|>=2^53,shift<0")
 	}
 	if i < 0 && s < 0 {
 		tags = append(tags, "neg-index-neg-shift")
@@ -444,7 +488,9 @@ func init() {
 		}
 		// fixed edge cases of the shift
 		for _, p := range [][2]int64{{-1, -1}, {-1, -62}, {-1, 0}, {-1, 62}, {-3, -1}, {-5, -2}, {math.MinInt64, -62}, {math.MinInt64, 0}, {math.MaxInt64, -62},
-			{1, 62}, {-2, 62}, {-1, 1}, {0, 62}, {0, -62}, {-7, -3}, {-8, -3}, {-9, -3}, {7, -3}, {math.MinInt64 + 1, -1}} {
+			{1, 62}, {-2, 62}, {-1, 1}, {0, 62}, {0, -62}, {-7, -3}, {-8, -3}, {-9, -3}, {7, -3}, {math.MinInt64 + 1, -1},
+			{1<<60 + 127, -6}, {-(1<<60 + 127), -6}, {math.MaxInt64, -62}, {math.MaxInt64, -1}, {math.MaxInt64, -10}, {1<<53 + 1, -1}, {-(1<<53 + 1), -1},
+			{1<<62 + 1, -61}, {-(1<<62 + 1), -61}, {math.MinInt64 + 1, -62}, {1<<54 + 3, -2}, {-(1<<54 + 3), -2}, {math.MaxInt64 - 1, -5}} {
 			run1("CalculateArithmeticShift", false, []string{"shift", "fixed"}, w.I(p[0]), w.I(p[1]))
 		}
 		// exactly opposite pairs along each of +-X, +-Y, +-Z, both orders, several magnitudes (each fallback axis of the code), every run
@@ -469,6 +515,15 @@ func init() {
 				run1("RotateBetweenVector", false, []string{"rot:fixed-opposite"}, vecVal(a.Scale(k)), vecVal(a))
 			}
 		}
+		// NewMatrix3: nine distinct small integers (fixed), so that any permutation of the argument order is visible
+		run1("NewMatrix3", false, []string{"newmatrix:fixed"}, w.F(1), w.F(2), w.F(3), w.F(4), w.F(5), w.F(6), w.F(7), w.F(8), w.F(9))
+		run1("NewMatrix3", false, []string{"newmatrix:fixed"}, w.F(-11), w.F(12), w.F(-13), w.F(21), w.F(-22), w.F(23), w.F(-31), w.F(32), w.F(-33))
+		run1("Max/float64", false, []string{"maxmin-float:fixed"}, fltsVal([]float64{math.Copysign(0, -1), 0}))
+		run1("Max/float64", false, []string{"maxmin-float:fixed"}, fltsVal([]float64{0, math.Copysign(0, -1)}))
+		run1("Min/float64", false, []string{"maxmin-float:fixed"}, fltsVal([]float64{0, math.Copysign(0, -1)}))
+		run1("Min/float64", false, []string{"maxmin-float:fixed"}, fltsVal([]float64{math.Copysign(0, -1), 0}))
+		run1("Max/float64", false, []string{"maxmin-float:fixed"}, fltsVal([]float64{}))
+		run1("Min/float64", false, []string{"maxmin-float:fixed"}, fltsVal([]float64{-1.5, -1.5, 2.5, 2.5}))
 		for i := 0; i < n; i++ {
 			switch k := g.Intn(20); {
 			case k < 6: // set helpers
@@ -534,7 +589,32 @@ func init() {
 						}
 					}
 				}
-				if g.Chance(0.5) {
+				if g.Intn(3) == 0 { // float64 instance: negative zero, equal elements, denormals, mixed magnitudes
+					fl := make([]float64, len(l))
+					for j := range fl {
+						switch g.Intn(8) {
+						case 0:
+							fl[j] = g.PickF(0, math.Copysign(0, -1), 5e-324, -5e-324, 1, -1, math.MaxFloat64, -math.MaxFloat64, 0.1, -0.1)
+						case 1:
+							if j > 0 {
+								fl[j] = fl[g.Intn(j)]
+							}
+						case 2:
+							fl[j] = math.Copysign(0, float64(g.Pick(1, -1)))
+						default:
+							fl[j] = moderate(g)
+							if g.Chance(0.3) {
+								fl[j] = smallInt(g)
+							}
+						}
+					}
+					ft := []string{Tag("maxmin-float:len=%d", min(len(fl), 5))}
+					if g.Chance(0.5) {
+						run1("Max/float64", false, ft, fltsVal(fl))
+					} else {
+						run1("Min/float64", false, ft, fltsVal(fl))
+					}
+				} else if g.Chance(0.5) {
 					run1("Max/int64", false, tags, intsVal(l))
 				} else {
 					run1("Min/int64", false, tags, intsVal(l))
@@ -580,6 +660,18 @@ func init() {
 					kind += ",unit"
 				}
 				run1("MatOps", false, []string{"mat:" + kind}, matVal(A), matVal(B), matVal(C), vecVal(v))
+				if g.Intn(4) == 0 { // constructor: nine distinct values in random order
+					perm := g.R.Perm(9)
+					args := make([]w.Val, 9)
+					for j := range args {
+						x := float64(perm[j] + 1)
+						if !small {
+							x = x*1.25 - 7
+						}
+						args[j] = w.F(x)
+					}
+					run1("NewMatrix3", false, []string{"newmatrix:distinct"}, args...)
+				}
 			case k < 19: // rotation
 				if g.Intn(6) == 0 {
 					ax, ka := genVec(g)
